@@ -242,6 +242,8 @@ def _reference_invalid(p, names, with_td, vals, sources, dest_expr, fsm, texteq)
         for base, cond in ((("join", dest_expr, ("last", s)), into), (dest_expr, z3.Not(into))):
             inv.append(z3.And(cond, text_eq(s, base)))
             inv.append(z3.And(cond, B("exists", base), alias_atom(s, base)))
+            # a directory source cannot replace a non-directory at the path it maps to -- for each of several sources too
+            inv.append(z3.And(cond, B("is_dir", s), B("exists", base), z3.Not(B("is_dir", base))))
     return inv
 
 
